@@ -36,11 +36,15 @@ def gen_cases(tier, seed):
     cases = []
     for kind, ts, pmode, idw, crc in itertools.product(pdugen.KINDS, (False, True), ("ack", "unack"), (1, 2, 4, 8), (False, True)):
         cases.append({"t": "route", "kind": kind, "towards_sender": ts, "pmode": pmode, "idw": idw, "crc": crc})
+        if kind in ("ACK_EOF", "ACK_FIN"):
+            cases.append({"t": "route", "kind": kind, "towards_sender": ts, "pmode": pmode, "idw": idw, "crc": crc, "subtype_flip": True})
         for hmode in ("ack", "unack"):
             for step in SRC_STEPS:
                 if step == "WAITING_FOR_EOF_ACK" and hmode == "unack":
                     continue
                 cases.append({"t": "admit", "side": "S", "step": step, "hmode": hmode, "kind": kind, "towards_sender": ts, "pmode": pmode, "idw": idw, "crc": crc})
+                if kind in ("ACK_EOF", "ACK_FIN"):
+                    cases.append(dict(cases[-1], subtype_flip=True))
                 if step != "IDLE_FRESH":
                     cases.append(dict(cases[-1], tx="next_seq"))
             for step in DST_STEPS:
@@ -49,12 +53,27 @@ def gen_cases(tier, seed):
                 if hmode == "ack" and step == "RECV_FILE_DATA_WITH_CHECK_LIMIT_HANDLING":
                     continue
                 cases.append({"t": "admit", "side": "D", "step": step, "hmode": hmode, "kind": kind, "towards_sender": ts, "pmode": pmode, "idw": idw, "crc": crc})
+                if kind in ("ACK_EOF", "ACK_FIN"):
+                    cases.append(dict(cases[-1], subtype_flip=True))
                 if step not in ("IDLE_FRESH", "IDLE_AFTER_TRANSACTION"):
                     # the PDU belongs to another transaction of the same peer (its next sequence number) while the handler is busy
                     cases.append(dict(cases[-1], tx="next_seq"))
     for cond, status, idw, crc, pmode, parsed in itertools.product(CONDS, ("UNDEFINED", "ACTIVE", "TERMINATED", "UNRECOGNIZED"), (1, 2, 4, 8), (False, True), ("ack", "unack"), (False, True)):
         cases.append({"t": "inactive", "cond": cond, "status": status, "idw": idw, "crc": crc, "pmode": pmode, "parsed": parsed})
     return cases
+
+
+def flip_ack_subtype(raw: bytes, idw: int, crc: bool) -> bytes:
+    """ACK PDUs carry a 'directive subtype code' nibble next to the acknowledged directive code (1 for Finished, 0 for EOF in the
+    dependency's constructor); the other value is just as legal on the wire.  Returns the PDU with that nibble flipped (PDU CRC redone)."""
+    from .. import models
+
+    b = bytearray(raw)
+    i = 4 + 2 * idw + 2 + 1  # fixed header + directive code
+    b[i] ^= 0x01
+    if crc:
+        b[-2:] = models.crc16_ccitt_false(bytes(b[:-2])).to_bytes(2, "big")
+    return bytes(b)
 
 
 def fields(kind):
@@ -67,6 +86,9 @@ def run_case(case):
     if case["t"] == "route":
         c = pdugen.conf(1, 2, 0, idw=case["idw"], mode=case["pmode"], crc=case["crc"])
         raw = pdugen.raw(case["kind"], c, fields(case["kind"]), towards_sender=case["towards_sender"])
+        if case.get("subtype_flip"):
+            raw = flip_ack_subtype(raw, case["idw"], case["crc"])
+            obs["cells_ack_with_other_subtype_code"] = 1
         pdu = wire.parse(raw)
         try:
             dest = get_packet_destination(pdu)
@@ -95,6 +117,9 @@ def run_case(case):
             if case.get("tx"):
                 obs["cells_admit_other_transaction"] = 1
             raw = pdugen.raw(case["kind"], c, fields(case["kind"]), towards_sender=case["towards_sender"])
+            if case.get("subtype_flip"):
+                raw = flip_ack_subtype(raw, case["idw"], case["crc"])
+                obs["cells_ack_with_other_subtype_code"] = 1
             pdu = wire.parse(raw)
             before = (state_snapshot(ep.h), [bytes(x.pack()) for x in ep.h._pdus_to_be_sent])
             outcome = "accepted"
@@ -159,5 +184,5 @@ def exhaustive(tier):
     return True
 
 
-REQUIRED = {"cells_route": 288, "cells_admit_other_transaction": 1000, "cells_admit": 1000, "cells_inactive": 1152, "S_accepted": 10, "D_accepted": 10,
+REQUIRED = {"cells_ack_with_other_subtype_code": 200, "cells_route": 288, "cells_admit_other_transaction": 1000, "cells_admit": 1000, "cells_inactive": 1152, "S_accepted": 10, "D_accepted": 10,
             "S_exc_InvalidPduForSourceHandler": 10, "D_exc_InvalidPduForDestHandler": 10}
